@@ -27,4 +27,10 @@ OBLIGATIONS = [
         timeout={"quick": 60, "thorough": 600},
         desc="DownloadNode._check_ciphertext_hash: leaf index == segnum, hash over the delivered segment, file offset == segnum*segment_size "
              "(segnum is a dict key => realised; bounded)"),
+    chx("share_layout", "C01_h", "h_layout", bounds={"quick": {"ns_max": 2**16, "bs_max": 2**40}, "thorough": {"ns_max": 2**32, "bs_max": 2**60}},
+        timeout={"quick": 120, "thorough": 1200},
+        desc="make_write_bucket_proxy/WriteBucketProxy(_v2)._create_offsets/get_allocated_size/put_block vs Share._satisfy_offsets/_satisfy_data_block: "
+             "sections tile the share, v1 iff everything < 2^32, reader parses the writer's header (field positions/widths), reader's block range == writer's block range, "
+             "delivered block is the checked block",
+        outside="write batching (_WriteBuffer), hash-section contents, ReadBucketProxy (legacy reader)"),
 ]
